@@ -164,6 +164,11 @@ def inequality_cases(ctx, cases):
             ctx.spec_fail("gini_scale", "gini changes under rescaling by %s: %r vs %r" % (c, g, gs), dict(rep, c=str(c)))
         cases.append(Case("C19 gini y=%s" % rats(y), fnum(g), nontrivial=(n >= 2 and len(set(y)) >= 2),
                           cmp=env_cmp(1e-12), tag="gini"))
+        if all(v.denominator == 1 and 0 <= v < 2 ** 16 for v in y):
+            gu = float(gini_coefficient(np.array([int(v) for v in y], np.uint64)))     # one extra Numba signature per run
+            ctx.count("gini:unsigned-twin")
+            if not close(gu, ge, 1e-12):
+                ctx.spec_fail("gini_unsigned_dtype", "gini_coefficient(uint64 array)=%r, exact %r" % (gu, float(ge)), dict(rep, dtype="uint64"))
         # Lorenz curve
         cp, ci = lorenz_curve(yf)
         cp, ci = [float(v) for v in cp], [float(v) for v in ci]
@@ -257,6 +262,19 @@ def mobility_cases(ctx, cases):
             ctx.spec_fail("rank_size", "rank_size(c=%s) is not the top int(n*c) observations in decreasing order" % c,
                           {"op": "ranksize", "data": [str(v) for v in data], "c": str(c)})
         ctx.count("ranksize:c=1" if c == 1 else "ranksize:c<1")
+        # list / tuple / unsigned input (repaired in 5cc1dba): same answer as for the float array
+        try:
+            rk2, sz2 = rank_size([float(v) for v in data], c=float(c))
+            rk3, sz3 = rank_size(tuple(float(v) for v in data), float(c))
+            if not (np.array_equal(sz2, sz) and np.array_equal(sz3, sz) and np.array_equal(rk2, rk)):
+                ctx.spec_fail("rank_size_list_input", "rank_size(list/tuple) differs from rank_size(array)", {"data": [str(v) for v in data], "c": str(c)})
+        except TypeError as e:
+            ctx.spec_fail("rank_size_list_input", "rank_size(list) raises TypeError (%s)" % e, {"data": [str(v) for v in data], "c": str(c)})
+        du = np.array([int(v * 8) % 7 for v in data], dtype=ctx.rng.choice([np.uint8, np.uint16, np.uint32, np.uint64]))
+        rku, szu = rank_size(du, c=float(c))
+        if [int(v) for v in szu] != sorted((int(v) for v in du), reverse=True)[:k]:
+            ctx.spec_fail("rank_size_unsigned_zero", "rank_size(unsigned array with zeros) is not in decreasing order: %s" % szu.tolist(),
+                          {"data": du.tolist(), "dtype": str(du.dtype), "c": str(c)})
         if k != int(n * F(float(c))):
             ctx.count("ranksize:double-product-rounds-across-an-integer")
         cases.append(Case("C19 ranksize data=%s c=%s" % (rats(data), fx(float(c))), ints(rk) + "|" + rats(F(float(v)) for v in sz),
@@ -1107,57 +1125,43 @@ def forms_cases(ctx, cases):
             sig = label if label not in ("strided", "reversed-view", "F-row", "C-column") else "f64-noncontiguous"
             sig = "f64" if sig == "F-column" else ("int64" if sig == "intp" else sig)
             jit_on = ctx.thorough or sig in ("f64", "uint8") or sig in jit_rot
-            if label in ("list", "tuple") and not ctx.thorough:
-                try:                      # (the failed Numba typing of a list costs a compilation: thorough tier only)
-                    rank_size(obj)
-                    ctx.spec_fail("rank_size_forms", "rank_size(%s) now accepted: judge it" % label, rep)
+            unsigned = label.startswith("uint")
+            # rank_size (not jitted): every form, lists / tuples and unsigned dtypes included
+            for c in (1.0, 0.5):
+                g = Guard(ctx, "rank_size_forms", label, [obj], rep)
+                try:
+                    rk, sz = rank_size(obj, c=c)
                 except TypeError as e:
-                    finding(ctx, "rank_size_list_input", "rank_size(%s) raises TypeError (%s) although data is documented array_like" % (label, e),
-                            dict(rep, call="rank_size(%r)" % (obj,)))
+                    ctx.spec_fail("rank_size_list_input", "rank_size(%s) raises TypeError (%s) although data is documented array_like" % (label, e),
+                                  dict(rep, call="rank_size(%r)" % (obj,)))
+                    break
+                g.after([rk, sz]); kept.add("rank_size.size", sz, rep)
+                k = int(n * c)
+                if [int(v) for v in rk] != list(range(1, k + 1)) or [F(float(v)) for v in sz] != sorted(vals, reverse=True)[:k]:
+                    key = "rank_size_unsigned_zero" if (unsigned and 0 in vals) else "rank_size_forms"
+                    ctx.spec_fail(key, "rank_size(%s input, c=%s) is not the top observations in decreasing order: %s" % (
+                        label, c, [float(v) for v in sz]), dict(rep, call="rank_size(<%s of %s>, c=%s)" % (label, [float(v) for v in vals], c)))
+            ctx.count("forms:rank_size:" + label)
+            if label in ("list", "tuple"):
+                if ctx.thorough:          # (the failed Numba typing of a list costs a compilation: thorough tier only)
+                    for fn in (gini_coefficient, lorenz_curve):
+                        try:
+                            fn(obj)
+                            ctx.count("forms:gini/lorenz:%s-accepted" % label)
+                        except Exception:
+                            ctx.count("forms:rejected:%s:%s" % (fn.__name__, label))     # Numba: no reflected lists / tuples
                 continue
             if not jit_on:
-                if label not in ("list", "tuple"):
-                    for c in (1.0, 0.5):
-                        g = Guard(ctx, "rank_size_forms", label, [obj], rep)
-                        rk, sz = rank_size(obj, c=c)
-                        g.after([rk, sz])
-                        k = int(n * c)
-                        if [F(float(v)) for v in sz] != sorted(vals, reverse=True)[:k]:
-                            if label.startswith("uint") and 0 in vals:
-                                finding(ctx, "rank_size_unsigned_zero", "rank_size on an unsigned array containing 0 puts the 0 first: %s" % [float(v) for v in sz],
-                                        dict(rep, call="rank_size(np.array(%s, np.%s))" % ([int(v) for v in vals], label)))
-                            else:
-                                ctx.spec_fail("rank_size_forms", "rank_size(%s input, c=%s) wrong" % (label, c), rep)
-                    ctx.count("forms:rank_size-only:" + label)
                 continue
             ctx.count("forms:jit-signature:" + sig)
-            if label in ("list", "tuple"):
-                for fn in (gini_coefficient, lorenz_curve):
-                    try:
-                        fn(obj)
-                        ctx.count("forms:gini/lorenz:%s-accepted" % label)
-                    except Exception:
-                        ctx.count("forms:rejected:%s:%s" % (fn.__name__, label))     # Numba: no reflected lists / tuples
-                try:
-                    rk, sz = rank_size(obj)
-                    if [F(float(v)) for v in sz] != sorted(vals, reverse=True):
-                        ctx.spec_fail("rank_size_forms", "rank_size(%s) wrong" % label, rep)
-                except TypeError as e:
-                    finding(ctx, "rank_size_list_input", "rank_size(%s) raises TypeError (%s) although data is documented array_like" % (label, e),
-                            dict(rep, call="rank_size(%r)" % (obj,)))
-                continue
-            unsigned = label.startswith("uint")
             g = Guard(ctx, "gini_forms", label, [obj], rep)
             got = float(gini_coefficient(obj))
             g.after([])
             if not close(got, ge, tol):
-                if unsigned:
-                    finding(ctx, "gini_unsigned_dtype", "gini_coefficient on an unsigned integer array: %r, exact %r (y[i]-y[j] wraps)" % (got, float(ge)),
-                            dict(rep, call="gini_coefficient(np.array(%s, np.%s))" % ([int(v) for v in vals], label)))
-                else:
-                    ctx.spec_fail("gini_forms", "gini_coefficient(%s input)=%r, exact %r" % (label, got, float(ge)), rep)
+                ctx.spec_fail("gini_unsigned_dtype" if unsigned else "gini_forms", "gini_coefficient(%s input)=%r, exact %r" % (label, got, float(ge)),
+                              dict(rep, call="gini_coefficient(np.array(%s, %s))" % ([float(v) for v in vals], label)))
             if sig == "uint8" and not ctx.thorough:
-                ctx.count("forms:gini/lorenz/rank_size:" + label)
+                ctx.count("forms:gini:" + label)
                 continue
             g = Guard(ctx, "lorenz_forms", label, [obj], rep)
             cp, ci = lorenz_curve(obj)
@@ -1165,18 +1169,7 @@ def forms_cases(ctx, cases):
             if len(cp) != n + 1 or any(not close(float(a), F(i, n), tol) for i, a in enumerate(cp)) \
                     or any(not close(float(a), b, tol) for a, b in zip(ci, ref_i)):
                 ctx.spec_fail("lorenz_forms", "lorenz_curve(%s input) differs from the cumulative shares" % label, rep)
-            for c in (1.0, 0.5):
-                g = Guard(ctx, "rank_size_forms", label, [obj], rep)
-                rk, sz = rank_size(obj, c=c)
-                g.after([rk, sz]); kept.add("rank_size.size", sz, rep)
-                k = int(n * c)
-                if [int(v) for v in rk] != list(range(1, k + 1)) or [F(float(v)) for v in sz] != sorted(vals, reverse=True)[:k]:
-                    if unsigned and 0 in vals:
-                        finding(ctx, "rank_size_unsigned_zero", "rank_size on an unsigned array containing 0 puts the 0 first: %s" % [float(v) for v in sz],
-                                dict(rep, call="rank_size(np.array(%s, np.%s))" % ([int(v) for v in vals], label)))
-                    else:
-                        ctx.spec_fail("rank_size_forms", "rank_size(%s input, c=%s) is not the top observations in decreasing order" % (label, c), rep)
-            ctx.count("forms:gini/lorenz/rank_size:" + label)
+            ctx.count("forms:gini/lorenz:" + label)
         v2 = [F(ctx.rng.randint(1, 800), 8) for _ in range(n)]          # same shape, different data, same process
         a2 = np.array([float(v) for v in v2])
         g2 = float(gini_coefficient(a2)); cp2, ci2 = lorenz_curve(a2)
@@ -1411,7 +1404,7 @@ def forms_cases(ctx, cases):
                 got, okv = ("raised %s: %s" % (type(e_).__name__, e_),), False
             if not okv:
                 if nt in (np.int8, np.uint8) or (nt in (np.int16, np.uint16) and at in (int, np.int64)):
-                    finding(ctx, "bb_small_int_n", "BetaBinomial(%s(20), %s(2), %s(3)): mean/var/std/skew=%r, exact %r (small-integer arithmetic overflows)" % (
+                    ctx.spec_fail("bb_small_int_n", "BetaBinomial(%s(20), %s(2), %s(3)): mean/var/std/skew=%r, exact %r (small-integer arithmetic overflows)" % (
                         nt.__name__, at.__name__, at.__name__, got[:4], refv[:4]), {"call": "BetaBinomial(np.%s(20), %s(2), %s(3))" % (nt.__name__, at.__name__, at.__name__)})
                 else:
                     ctx.spec_fail("bb_forms", "BetaBinomial(n=%s, a,b=%s) differs from the Python-number result" % (nt.__name__, at.__name__),
@@ -1427,7 +1420,7 @@ def forms_cases(ctx, cases):
         except (ValueError, ZeroDivisionError) as e_:
             gv = (float("nan"), float("nan"))
         if any(not abs(x - y) <= 1e-9 * max(1, abs(y)) for x, y in zip(gv, rv)):
-            finding(ctx, "bb_small_int_n", "BetaBinomial(%r, %r, %r): var, skew = %r, with a Python int n %r" % (nn_, aa, bb, gv, rv),
+            ctx.spec_fail("bb_small_int_n", "BetaBinomial(%r, %r, %r): var, skew = %r, with a Python int n %r" % (nn_, aa, bb, gv, rv),
                     {"call": "BetaBinomial(%r, %r, %r)" % (nn_, aa, bb)})
     # ARMA: every container / scalar form of phi, theta, sigma and of the integer arguments
     phi, theta, sigma = [F(1, 2), F(-1, 4)], [F(1, 4)], F(2)
